@@ -1,0 +1,67 @@
+//go:build verif
+
+// Contracts for the govc verifier (comment-only; see /verif/DESIGN.md).
+// This file contains no code. It is read as text by /verif/bin/govc.
+
+package flatecut
+
+//@ default mode int
+
+//@ func loadU64LE
+//@   prop C16
+//@   mode bv
+//@   pure
+//@   requires len(b) >= 8
+
+// bsOK: the read position is inside the buffer and at most 63 bits are pending.
+//@ spec bsOK(b *bitstream) bool = b != nil && 0 <= b.index && b.index <= len(b.bytes) && b.nBits <= 63 && int(b.nBits / 8) <= b.index
+
+// take(n): n more bits or the "not enough data" sentinel; never reads past the buffer.
+//@ func (*bitstream).take
+//@   prop C16
+//@   mode bv
+//@   requires bsOK(b) && nBits <= 16
+//@   ensures bsOK(b) && (result == -0x80000000 || (0 <= result && result < (int32(1) << nBits)))
+//@   ensures unchanged(b.bytes) && b.index >= old(b.index)
+//@   modifies b.index, b.bits, b.nBits
+//@   loop 1 invariant bsOK(b) && unchanged(b.bytes) && b.index >= old(b.index) && nBits <= 16
+//@   loop 1 decreases nBits + 8 - b.nBits
+
+// The result of the block walk: on success the cut point is inside the limit.
+// The Huffman machinery behind it (construct/decode/doHuffman/writeEndCode and
+// the block loop) is NOT verified here: its summary is assumed.
+//@ func (*cutter).cut
+//@   prop C16
+//@   trusted block walker (Huffman tables, symbol decoding): summary assumed, see DESIGN.md
+//@   requires c != nil
+//@   ensures implies(retErr == nil, 0 <= encodedLen && encodedLen <= c.maxEncodedLen && decodedLen >= 0 && encodedLen >= 2)
+//@   ensures unchanged(c.maxEncodedLen) && unchanged(c.bits.bytes)
+//@   modifies *c, mem(c.bits.bytes)
+
+// doStored: a stored block that does not fit is shortened in place; LEN + NLEN = 0xFFFF.
+//@ func (*cutter).doStored
+//@   prop C16
+//@   requires c != nil && bsOK(c.bits) && 0 <= c.maxEncodedLen && c.maxEncodedLen <= len(c.bits.bytes) && c.decodedLen >= 0
+//@   ensures bsOK(c.bits) && unchanged(c.bits.bytes) && c.decodedLen >= 0
+//@   ensures[nostalebits] implies(result == nil || result == errInternalSomeProgress, c.bits.nBits == 0 && c.bits.bits == 0 && c.bits.index <= c.maxEncodedLen)
+//@   ensures[patched] implies(result == errInternalSomeProgress, c.bits.index == c.maxEncodedLen && int(c.bits.bytes[old(c.bits.index) - int(old(c.bits.nBits) / 8)]) + 256*int(c.bits.bytes[old(c.bits.index) - int(old(c.bits.nBits) / 8) + 1]) + int(c.bits.bytes[old(c.bits.index) - int(old(c.bits.nBits) / 8) + 2]) + 256*int(c.bits.bytes[old(c.bits.index) - int(old(c.bits.nBits) / 8) + 3]) == 0xFFFF)
+//@   modifies c.bits.index, c.bits.bits, c.bits.nBits, c.decodedLen, mem(c.bits.bytes)
+//@   wraps add
+//@   loop 1 invariant c.bits.nBits <= 63 && c.bits.index >= 0 && c.bits.index <= len(c.bits.bytes) && unchanged(c.bits.bytes) && unchanged(c.maxEncodedLen) && unchanged(c.decodedLen) && c.bits.index == old(c.bits.index) - (int(old(c.bits.nBits)) - int(c.bits.nBits)) / 8 && (int(old(c.bits.nBits)) - int(c.bits.nBits)) % 8 == 0 && c.bits.nBits <= old(c.bits.nBits)
+//@   loop 1 decreases c.bits.nBits
+
+// cutSingleBlock: the fallback re-encodes the first n decoded bytes as one
+// stored block: header 0x01, LEN = n (little-endian), NLEN = ^LEN.
+//@ func cutSingleBlock
+//@   prop C16
+//@   requires 2 <= maxEncodedLen && maxEncodedLen <= len(encoded)
+//@   ensures implies(retErr == nil, 2 <= encodedLen && encodedLen <= maxEncodedLen && decodedLen >= 0 && (encodedLen == decodedLen + 5 || (encodedLen == 2 && decodedLen == 0)))
+//@   ensures[header] implies(retErr == nil && decodedLen > 0, encoded[0] == 1 && int(encoded[1]) + 256*int(encoded[2]) == decodedLen && int(encoded[3]) == 255 - int(encoded[1]) && int(encoded[4]) == 255 - int(encoded[2]))
+//@   ensures[empty] implies(retErr == nil && decodedLen == 0, encoded[0] == 3 && encoded[1] == 0)
+//@   modifies mem(encoded)
+
+//@ func Cut
+//@   prop C16
+//@   ensures implies(retErr == nil, 0 <= encodedLen && encodedLen <= maxEncodedLen && encodedLen <= len(encoded) && decodedLen >= 0)
+//@   ensures implies(retErr != nil, encodedLen == 0 && decodedLen == 0)
+//@   modifies mem(encoded)
